@@ -247,6 +247,36 @@ def witness_search(ctx: Ctx, thorough: bool):
             continue
         ctx.decide(bad is None, "R3.w", site, f"{len(cases) * len(PATTERNS)} (buffer, pos, width) cases agree", bad or "",
                    where=where(fi, fi.node))
+    # sequences of reads on ONE object, the cursor also set backwards and far forwards between reads: every read depends
+    # only on (buffer, cursor, width), never on earlier reads (no stale window / chunk kept on the object)
+    site = f"{PK}::RawPacketData::read-sequences"
+    bad = None
+    try:
+        buf = bytes((i * 37 + 11) % 256 for i in range(48))
+        seq = [("read_as_int", 0, 12), ("read_as_int", None, 20), ("read_as_bytes", None, 9), ("read_as_int", 300, 64), ("read_as_int", 8, 16),
+               ("read_as_bytes", 131, 40), ("read_as_int", 3, 5), ("read_as_int", 376, 8), ("read_as_int", 0, 64), ("read_as_bytes", 0, 16),
+               ("read_as_int", 200, 1), ("read_as_int", 199, 3), ("read_as_int", None, 0), ("read_as_int", 64, 64), ("read_as_int", 60, 64)]
+        for order in (seq, list(reversed(seq))):
+            obj = BytesObj(buf, cls="RawPacketData", pos=0)
+            for meth, setpos, n in order:
+                if setpos is not None:
+                    obj.attrs["pos"] = setpos
+                p = obj.attrs.get("pos", 0)
+                if p + n > 8 * len(buf):
+                    continue                     # the property speaks about reads inside the buffer
+                kind, got = h.outcome(f"obj.{meth}(n)", PK, obj=obj, n=n)
+                bits = _bits(buf)[p:p + n]
+                val = int(bits, 2) if bits else 0
+                want = val if meth == "read_as_int" else val.to_bytes((n + 7) // 8, "big")
+                if kind != "ok" or got != want or obj.attrs.get("pos") != p + n:
+                    bad = (f"on one 48-byte packet, after earlier reads elsewhere: pos={p} n={n} {meth} -> "
+                           f"{('raises ' + got) if kind != 'ok' else _short(got)}, cursor {obj.attrs.get('pos')}; expected {_short(want)}, cursor {p + n}")
+                    break
+            if bad:
+                break
+        ctx.decide(bad is None, "R3.w", site, "30 reads in two orders on one object", bad or "")
+    except Unsupported as e:
+        ctx.unknown("R3.w", site, str(e))
     # _extract_bits directly (used by the header accessors and the framer with start/width not tied to a cursor)
     fi = inline_helpers(prog, _bitsfn(prog))
     site = f"{fi.key}::witness-search"
@@ -319,7 +349,7 @@ SPEC = PropSpec(
     pid="C03",
     title="Bit-cursor reads return exactly the addressed bits and advance by the width",
     check=check,
-    floors={"R3.1": 2, "R3.2": 3, "R3.3": 2, "R3.w": 3},
+    floors={"R3.1": 2, "R3.2": 3, "R3.3": 2, "R3.w": 4},
     fallback={"R3.1": ("R3.w",), "R3.2": ("R3.w",)},
     explanation=("Symbolic evaluation in a bit-window abstract domain: every path of _extract_bits (both slice modes: "
                  "upper bound inside the buffer / cut at its end) is shown to return Bits(data, s, s+n) - the affine "
